@@ -591,7 +591,10 @@ func (gen *Generator) GenerateInclude(args []Sexp) error {
 		case *SexpPair:
 			expr := item
 			for expr != SexpNull {
-				list := expr.(*SexpPair)
+				list, isPair := expr.(*SexpPair)
+				if !isPair {
+					return fmt.Errorf("include: Expected a proper list, got a dotted pair ending in %s", showForErr(expr))
+				}
 				if err := sourceItem(list.Head); err != nil {
 					return err
 				}
